@@ -353,7 +353,7 @@ theorem matchMain_char (e : Eng) (ok : EngOK e) (r : Nat) (hv : ValidRune r) (h8
       obtain ⟨b0, t, hEt, _⟩ := wf_head hE
       rw [hEt]; rfl
     simp only [Keys.matchedKeys, runes_of_encode r hv, hEne, Bool.false_eq_true, if_false, List.isEmpty_nil, if_true,
-      nonIncOverride, hn0, Bool.false_and, isEscapeKey]
+      nonIncOverrideR, nonIncOverride, hn0, ite_self, Bool.false_and, isEscapeKey]
     have hesc : (([r] : List Nat) == [0x1b]) = false := by
       simp [hr1b]
     simp only [hesc, Bool.false_and, Bool.false_eq_true, if_false]
@@ -387,7 +387,7 @@ theorem matchMain_partial (e : Eng) (ok : EngOK e) (r : Nat) (hv : ValidRune r) 
     unfold matchMain
     simp only [hmb, ok.hne, Bool.false_eq_true, if_false, hdk]
     simp only [matchCharacter, Bool.true_eq_false, false_and, and_false, if_false, if_true, Keys.matchedPrefix, hBe,
-      Bool.false_eq_true, List.isEmpty_nil, List.append_nil, nonIncOverride, ok.hni, Bool.false_and, isEscapeKey, hesc]
+      Bool.false_eq_true, List.isEmpty_nil, List.append_nil, nonIncOverrideR, nonIncOverride, ok.hni, ite_self, Bool.false_and, isEscapeKey, hesc]
     simp [hasCmd]
   · have hqE : qE = qB ++ q' := by
       rw [hBp, hEp, List.append_assoc] at hBq
@@ -422,7 +422,7 @@ theorem matchMain_partial (e : Eng) (ok : EngOK e) (r : Nat) (hv : ValidRune r) 
     unfold matchMain
     simp only [hmb, ok.hne, Bool.false_eq_true, if_false, hdk, hmc]
     simp only [if_true, Keys.matchedPrefix, hBe, Bool.false_eq_true, if_false, List.isEmpty_nil, List.append_nil,
-      nonIncOverride, hn0, Bool.false_and, isEscapeKey, hesc]
+      nonIncOverrideR, nonIncOverride, hn0, ite_self, Bool.false_and, isEscapeKey, hesc]
     subst he0
     simp [hasCmd, ok.hpf]
     exact ok.hni
